@@ -796,7 +796,12 @@ impl Server {
             let response = if let Some(sync_resp) = sync_response {
                 sync_resp
             } else {
-                self.process_frame(frame, id)?
+                // A command that cannot be carried out is answered with an error reply and
+                // the connection stays usable (same conversion EXEC applies to its slots)
+                match self.process_frame(frame, id) {
+                    Ok(resp) => resp,
+                    Err(e) => RespFrame::error(e.to_string()),
+                }
             };
             #[cfg(ferrous_verif)]
             verif_guard.done(&response);
